@@ -96,6 +96,11 @@ class LowerBase:
     def resolve_base(self, base, ctx_node):
         """base type name -> ('c', ctype) | ('rec', id) | ('enum', id)"""
         b = base.strip()
+        if 'type-parameter-' in b:
+            # member typedef named through the (dependent-looking) printed form of a partial specialisation:
+            # resolve the member name in the context of the instantiation instead
+            parts = [x.replace('\x00', '::') for x in split_top(b.replace('::', '\x00'), '\x00')]
+            b = parts[-1]
         if b in BUILTIN:
             return ('c', BUILTIN[b])
         bb = b[5:] if b.startswith('std::') else b
@@ -630,6 +635,8 @@ class LowerBase:
                 # a catch-all that does not rethrow would stop exceptions; stay conservative
                 pass
             callee = self.callee_decl(n)
+            if callee is not None and self.ast.qualname(callee) in ('std::throw_with_nested', 'std::rethrow_exception', 'std::rethrow_if_nested'):
+                return True
             if callee is not None and self.fn_may_throw(callee):
                 return True
             if k == 'LambdaExpr':
@@ -699,8 +706,8 @@ RT_HEADER = r"""
 /* ---- cxx2c runtime: exception model (DESIGN.md 3.4) ---- */
 #include <stddef.h>
 #include <string.h>
-struct vf_exc_t { int pending; int type; unsigned long obj; unsigned long handled;
-                  const void* in; size_t byte, line, column; };
+struct vf_exc_t { int pending; int type; unsigned long obj; unsigned long handled; unsigned long nested_obj; int site;
+                  const void* in; size_t off, byte, line, column; };
 struct vf_exc_t vf_exc;
 unsigned long vf_exc_counter;
 """
@@ -812,13 +819,16 @@ class Lowerer(ModelMixin, StmtMixin, ExprMixin, LowerBase):
         parts.append('/* ---- lowered functions ---- */')
         for cn in sorted(self.fn_text):
             if self.fn_info.get(cn, {}).get('kind') != 'extern':
-                parts.append(self.fn_text[cn])
+                parts.append('/*@FN %s@*/\n%s\n/*@ENDFN@*/' % (cn, self.fn_text[cn]))
         return '\n\n'.join(parts) + '\n'
 
     def info(self):
         recs = {}
         for rid, tag in self.rec_names.items():
             recs[tag] = self.rec_pretty(rid)
+        for cn, sid in getattr(self, 'sites', {}).items():
+            if cn in self.fn_info:
+                self.fn_info[cn]['site_id'] = sid
         return {'functions': self.fn_info, 'roots': self.roots, 'records': recs,
                 'exc_types': self.exc_types, 'warnings': self.warnings}
 
